@@ -20,6 +20,13 @@
 //!         go on: a tick that falls due is queued); record = the unchanged state + ` @<clock>`.  A line whose `W`s add up
 //!         to two local hold times or more is refused (the hold timer would collect two un-awaited ticks, see timers.rs).
 //!         With `T` / `W` on the line, `aA` takes a stream that was connected before the clock ran (connecting waits).
+//!         `pB:<hex>` (`h` lines; 1..64 octets) the peer writes RAW octets that do not make a whole frame (the octets written
+//!         by all `pB` steps of the line must leave `parse_frame` undecided: fewer than 18, or a length field >= 19 that
+//!         announces more than is there; with `aA` on the line: at most 17 in all), then `Session::tick()` is polled - never
+//!         letting the paused clock move - until it has read them and is pending again (`read_frame` waits for the rest of
+//!         the frame): record = the unchanged state + ` @<clock>`; if a timer tick was already queued (after `W`), `tick()`
+//!         returns with that timer's event as for `T`.  A `T` / `W` after it finds the session with a PARTIAL FRAME in its
+//!         receive buffer: the timer branches of `tick()` must not care.
 //!         `q<room>` from now on the application's outgoing PDU queue (`pdu_out`, 64 slots) has only <room> free slots
 //!         at the start of every step (the application is slow in writing to the socket); `send_pdu` is a `try_send`
 //!   OPEN  `<asn>:<hold>:<ap>`: the peer's AS in both widths (two-octet field = asn, or AS_TRANS plus the four-octet
@@ -28,13 +35,21 @@
 //!   ap    `-` no ADD-PATH capability, else pairs `<4|6><dir 0..3>` (Ipv4/Ipv6 unicast; direction 0 is
 //!         undefined: the OPEN parses, `addpath_families_vec()` fails)
 //! Request line:  `t <cfg> <step> ...`  a fresh session on a wall-clock runtime; besides the steps above
-//!   step  `wO:..` `wK` `wU:<n>` `wN:<code>:<sub>` the PDU's bytes are written to the loopback socket and
+//!   step  `wO:..` `wK` `wU:<n>` `wN:<code>:<sub>` `wR` the PDU's bytes are written to the loopback socket and
 //!         `Session::tick()` is called (read_frame -> parse -> handle_msg); `c` the peer closes, then `tick()`;
 //!         `wX` a malformed frame (length field 5) is written, then `tick()`; `cM` the peer writes half a header and
 //!         closes, then `tick()`: `read_frame` fails in both cases
 //!         `cDr` `cDc` `cDd` `cDh` `cDo` Command::Disconnect(ConnectionRejected / Reconfiguration / Deconfigured / HoldTimerExpired / Other),
 //!         `cD` Command::Disconnect(Shutdown) / `cK` Command::ForcedKeepalive on the command channel, then `tick()`
 //!   reply additionally `noconn` (no connection attached: nothing to read; ends the history), `hang`
+//! Request line:  `s <cfg> <init> <stream hex> <lens> <c|->`  the whole receive path: a session forced into <init> (as on
+//!   `h` lines) on the wall-clock runtime; the peer writes <stream> in the chunks <lens> (`a,b,c`, each >= 1, summing to
+//!   the length of the stream); after every chunk `Session::tick()` is called until it stays pending for 8 ms (the
+//!   pending tick - `read_frame` inside `select!` - is then dropped); `c`: the peer closes after the last chunk and
+//!   `tick()` is called once more.  Reply: one record per `tick()` that returned (= per frame handed to `handle_msg`,
+//!   plus a failed read / the close), then ` ## same=<0|1>`: 1 iff the same stream written in ONE piece gives the same
+//!   records.  Model side: `Rc.Session.feedAll` with the concrete decoders (Rc/Model/Session.lean), i.e. the function
+//!   `session_chunking_invariant` / `session_end_to_end` (Rc/Thm/C09.lean) are about.
 //! Reply: one record per step joined by ` ; `:
 //!   `<State> <ok|err> <crt><hold><ka><dop> <retry counter> <conn> <negotiated> <pdus out> <to app>`
 //!   or `todo` (the arm is `todo!()`) / `panic` (any other panic); both end the history.
@@ -121,6 +136,8 @@ pub enum Step {
     Timer,
     /// `h` lines only: the paused clock moves this many seconds, the session is not polled
     Wait(u8),
+    /// `h` lines only: the peer writes octets that are not a whole frame; `tick()` is polled until it has read them
+    Raw(Vec<u8>),
     /// `t` lines only: the PDU is written to the socket and `Session::tick()` is called
     Wire(Box<Step>),
     /// `t` lines only: the peer closes the connection and `Session::tick()` is called
@@ -193,6 +210,7 @@ impl Step {
             "aC" if parts.len() == 1 => Some(Step::AConn),
             "aA" if parts.len() == 1 => Some(Step::Attach),
             "T" if parts.len() == 1 => Some(Step::Timer),
+            "pB" if parts.len() == 2 => { let b = unhex(parts[1])?; if b.is_empty() || b.len() > 64 || parts[1] == "-" { None } else { Some(Step::Raw(b)) } }
             _ if head.starts_with('W') && parts.len() == 1 => { let d = parse_num(&head[1..], 60)? as u8; if d == 0 { None } else { Some(Step::Wait(d)) } }
             _ if head.starts_with('q') && parts.len() == 1 => Some(Step::Room(parse_num(&head[1..], PDU_CAP as u64)? as u8)),
             _ => None,
@@ -213,6 +231,7 @@ impl Step {
             Step::Room(n) => format!("q{}", n),
             Step::Timer => "T".into(),
             Step::Wait(d) => format!("W{}", d),
+            Step::Raw(b) => format!("pB:{}", hex(b)),
             Step::Wire(inner) => format!("w{}", &inner.show()[1..]),
             Step::Close => "c".into(),
             Step::ReadErr(mid) => if *mid { "cM".into() } else { "wX".into() },
@@ -473,7 +492,7 @@ impl Live {
 
     pub fn step(&mut self, st: &Step) -> Out {
         if self.dead { return Out::Panic; }
-        enum Act { Ev(Event), Msg(BgpMsg<Bytes>), Start, Conn, Wire(Vec<u8>), Close, Attach, Cmd(Command), Burst(Vec<u8>, u8), Timer, CloseMid, Wait(u8) }
+        enum Act { Ev(Event), Msg(BgpMsg<Bytes>), Start, Conn, Wire(Vec<u8>), Close, Attach, Cmd(Command), Burst(Vec<u8>, u8), Timer, CloseMid, Wait(u8), Raw(Vec<u8>) }
         let act = match st {
             Step::Ev(k, o) => {
                 let ev = match (*k, o) {
@@ -505,11 +524,12 @@ impl Live {
             Step::Room(n) => { self.room = *n as usize; return self.record(true); }
             Step::Timer => { if self.real { return Out::Unparsable; } Act::Timer }
             Step::Wait(d) => { if self.real { return Out::Unparsable; } Act::Wait(*d) }
+            Step::Raw(b) => { if self.real { return Out::Unparsable; } Act::Raw(b.clone()) }
             Step::Wire(inner) => {
                 if !self.has_conn() { return Out::NoConn; }
                 Act::Wire(match &**inner {
                     Step::MOpen(o) => open_bytes(o), Step::MKeep => keepalive_bytes(), Step::MUpd(n) => update_bytes(*n),
-                    Step::MNotif(c, s) => notif_bytes(*c, *s), _ => return Out::Unparsable })
+                    Step::MNotif(c, s) => notif_bytes(*c, *s), Step::MRefresh => refresh_bytes(), _ => return Out::Unparsable })
             }
             Step::Close => { if !self.has_conn() { return Out::NoConn; } Act::Close }
             Step::ReadErr(mid) => {
@@ -556,7 +576,7 @@ impl Live {
         let (app, side) = (&mut self.app, &mut self.side);
         let special = std::cell::Cell::new(0u8);
         let hold_secs = self.hold_secs;
-        let timed = matches!(act, Act::Timer | Act::Wait(_));
+        let timed = matches!(act, Act::Timer | Act::Wait(_) | Act::Raw(_));
         let base = self.base;
         let r = with_rt_of(self.real, |r| catch_unwind(AssertUnwindSafe(|| r.rt.block_on(async {
             use tokio::io::AsyncWriteExt;
@@ -625,6 +645,21 @@ impl Live {
                         _ => { special.set(2); Some(true) }
                     }
                 }
+                // the octets go to the socket; `tick()` is polled, with yields only (a yield lets the IO driver deliver the
+                // readiness event and never moves the paused clock), until `read_frame` has appended them to the connection's
+                // buffer and waits for more.  `tick()` returning means a timer tick was queued already: its event is handled.
+                Act::Raw(b) => {
+                    let _ = peer.write_all(&b).await; let _ = peer.flush().await;
+                    for _ in 0..8 { tokio::task::yield_now().await; }
+                    match s.verif_timer_ticks_pending().iter().filter(|p| **p).count() {
+                        0 => tokio::select! { biased;
+                            r = s.tick() => Some(r.is_ok()),
+                            _ = async { for _ in 0..48 { tokio::task::yield_now().await; } } => Some(true),
+                        },
+                        1 => match tokio::time::timeout(std::time::Duration::from_millis(1), s.tick()).await { Ok(r) => Some(r.is_ok()), Err(_) => None },
+                        _ => { special.set(2); Some(true) }
+                    }
+                }
                 Act::Wait(d) => {
                     for _ in 0..8 { tokio::task::yield_now().await; }
                     for _ in 0..d {
@@ -652,6 +687,147 @@ impl Live {
     }
 }
 
+
+/// how long `tick()` may stay pending before the session counts as idle (`s` lines)
+const IDLE_MS: u64 = 8;
+
+impl Live {
+    fn peer_write(&mut self, b: &[u8]) {
+        let peer = &mut self.peer;
+        with_rt_of(self.real, |r| r.rt.block_on(async { use tokio::io::AsyncWriteExt; peer.write_all(b).await.unwrap(); peer.flush().await.unwrap(); }));
+    }
+    fn peer_close(&mut self) {
+        let peer = &mut self.peer;
+        with_rt_of(self.real, |r| r.rt.block_on(async { use tokio::io::AsyncWriteExt; let _ = peer.shutdown().await; }));
+    }
+    /// one `Session::tick()`; `None` when it stays pending for `ms` milliseconds (the pending call is dropped)
+    fn tick_idle(&mut self, ms: u64) -> Option<Out> {
+        if self.dead { return Some(Out::Panic); }
+        let s = self.s.as_mut().unwrap();
+        let r = with_rt_of(self.real, |r| catch_unwind(AssertUnwindSafe(|| r.rt.block_on(async {
+            match tokio::time::timeout(std::time::Duration::from_millis(ms), s.tick()).await { Ok(r) => Some(r.is_ok()), Err(_) => None }
+        }))));
+        match r {
+            Ok(None) => None,
+            Ok(Some(ok)) => Some(self.record(ok)),
+            Err(p) => {
+                self.dead = true;
+                let msg = if let Some(s) = p.downcast_ref::<&str>() { s.to_string() } else if let Some(s) = p.downcast_ref::<String>() { s.clone() } else { String::new() };
+                Some(if msg.contains("not yet implemented") { Out::Todo } else { Out::Panic })
+            }
+        }
+    }
+}
+
+/// `s <cfg> <init> <stream> <lens> <c|->`
+pub struct SessLine { cfg: Cfg, init: Init, stream: Vec<u8>, lens: Vec<usize>, close: bool }
+
+pub fn parse_sess_line(line: &str) -> Option<SessLine> {
+    let w: Vec<&str> = line.split(' ').collect();
+    if w.len() != 6 || w[0] != "s" { return None; }
+    let cfg = Cfg::parse(w[1])?;
+    let init = Init::parse(w[2])?;
+    let stream = unhex(w[3])?;
+    if stream.is_empty() || stream.len() > 20000 { return None; }
+    let mut lens = Vec::new();
+    for x in w[4].split(',') { let n = parse_num(x, 20000)? as usize; if n == 0 { return None; } lens.push(n); }
+    if lens.len() > 80 || lens.iter().sum::<usize>() != stream.len() { return None; }
+    let close = match w[5] { "c" => true, "-" => false, _ => return None };
+    Some(SessLine { cfg, init, stream, lens, close })
+}
+
+fn run_sess_once(l: &SessLine, lens: &[usize]) -> Vec<Out> {
+    let mut live = Live::new_on(l.cfg, l.init, true);
+    let mut v = Vec::new();
+    let mut off = 0;
+    let mut over = false;
+    'chunks: for n in lens {
+        if !live.has_conn() { over = true; break; }
+        live.peer_write(&l.stream[off..off + n]);
+        off += n;
+        for _ in 0..400 {
+            match live.tick_idle(IDLE_MS) {
+                None => continue 'chunks,
+                Some(o) => {
+                    let stop = match &o { Out::Rec(r) => !r.ok || !r.conn, _ => true };
+                    v.push(o);
+                    if stop { over = true; break 'chunks; }
+                }
+            }
+        }
+        v.push(Out::Hang); over = true; break;
+    }
+    if l.close && !over && live.has_conn() {
+        live.peer_close();
+        match live.tick_idle(5000) { Some(o) => v.push(o), None => v.push(Out::Hang) }
+    }
+    v
+}
+
+pub fn run_sess(l: &SessLine) -> String {
+    let chunked = run_sess_once(l, &l.lens);
+    let same = l.lens.len() == 1 || run_sess_once(l, &[l.stream.len()]) == chunked;
+    format!("{} ## same={}", if chunked.is_empty() { "-".to_string() } else { show_outs(&chunked) }, same as u8)
+}
+
+/// the frames of a stream (RFC 4271 4.1: the length field says where the next one begins) as the steps of an equivalent
+/// `t` line, for the oracle; `None` when a frame is not one of the PDUs this harness writes (the oracle then judges
+/// `same=1` and the absence of panics / hangs only)
+fn steps_of_stream(l: &SessLine) -> Option<Vec<Step>> {
+    let s = &l.stream;
+    let mut o = 0;
+    let mut steps = Vec::new();
+    while o < s.len() {
+        if s.len() - o < 19 { return None; }
+        let len = u16::from_be_bytes([s[o + 16], s[o + 17]]) as usize;
+        let malformed = { let mut b = header(5, 4); b.push(0); b };
+        if s[o..].starts_with(&malformed) { steps.push(Step::ReadErr(false)); break; }   // nothing after it is ever handled
+        if len < 19 || s.len() - o < len { return None; }
+        let f = &s[o..o + len];
+        let st = match f[18] {
+            1 => Step::MOpen(open_of_bytes(f)?),
+            2 => { if (len - 23) % 4 != 0 || len > 23 + 4 * 200 { return None; } let n = ((len - 23) / 4) as u8; if update_bytes(n) != f { return None; } Step::MUpd(n) }
+            3 => { if len != 21 || notif_bytes(f[19], f[20]) != f { return None; } Step::MNotif(f[19], f[20]) }
+            4 => { if keepalive_bytes() != f { return None; } Step::MKeep }
+            5 => { if refresh_bytes() != f { return None; } Step::MRefresh }
+            _ => return None,
+        };
+        steps.push(Step::Wire(Box::new(st)));
+        o += len;
+    }
+    // once ADD-PATH is negotiated (local configuration `a1` and an OPEN that carries the capability) the NLRI of the UPDATEs
+    // this harness writes (no path identifiers) mean something else, or nothing: their fate is not judged
+    let has_ap_open = steps.iter().any(|s| matches!(s, Step::Wire(b) if matches!(&**b, Step::MOpen(o) if !o.ap.is_empty())));
+    let has_update = steps.iter().any(|s| matches!(s, Step::Wire(b) if matches!(&**b, Step::MUpd(_))));
+    if l.cfg.a && has_ap_open && has_update { return None; }
+    if l.close { steps.push(Step::Close); }
+    Some(steps)
+}
+
+/// inverse of `open_bytes` (checked by encoding the result again)
+fn open_of_bytes(f: &[u8]) -> Option<OpenP> {
+    if f.len() < 29 { return None; }
+    let field = u16::from_be_bytes([f[20], f[21]]);
+    let hold = u16::from_be_bytes([f[22], f[23]]);
+    let mut p = 29;
+    let (mut as4, mut ap): (Option<u32>, Vec<(u8, u8)>) = (None, vec![]);
+    while p + 4 <= f.len() {
+        let (code, cl) = (f[p + 2], f[p + 3] as usize);
+        let v = f.get(p + 4..p + 4 + cl)?;
+        match code {
+            65 if cl == 4 => as4 = Some(u32::from_be_bytes([v[0], v[1], v[2], v[3]])),
+            69 => for c in v.chunks(4) { if c.len() == 4 { ap.push((if c[1] == 1 { 4 } else { 6 }, c[3])); } },
+            _ => {}
+        }
+        p += 4 + cl;
+    }
+    let cands = match as4 {
+        None => vec![OpenP { asn: field as u32, hold, ap: ap.clone(), field: None }],
+        Some(a) => vec![OpenP { asn: a, hold, ap: ap.clone(), field: None }, OpenP { asn: a, hold, ap: ap.clone(), field: Some(field) }],
+    };
+    cands.into_iter().find(|o| o.ap.iter().all(|(_, d)| *d <= 3) && open_bytes(o) == f)
+}
+
 impl Drop for Live {
     fn drop(&mut self) {
         // timers and sockets are released inside the runtime context
@@ -674,9 +850,9 @@ fn parse_tick_step(t: &str) -> Option<Step> {
         if k < 2 { return None; }
         return Some(Step::Burst(k, parse_num(p[1], 200)? as u8));
     }
-    if t == "T" || t.starts_with('W') { return None; }   // timers fire through tick() on the paused clock of the `h` lines only
+    if t == "T" || t.starts_with('W') || t.starts_with("pB") { return None; }   // timers fire through tick() on the paused clock of the `h` lines only
     if let Some(rest) = t.strip_prefix('w') {
-        return match Step::parse(&format!("m{}", rest))? { Step::MRefresh => None, m => Some(Step::Wire(Box::new(m))) };
+        return Some(Step::Wire(Box::new(Step::parse(&format!("m{}", rest))?)));   // `wR`: deliverable since the repair of K13
     }
     Step::parse(t)
 }
@@ -718,6 +894,18 @@ pub fn parse_line(line: &str) -> Option<(Cfg, Init, Vec<Step>)> {
     // un-polled time stays below two hold intervals (the hold timer never has two ticks outstanding when it is reset)
     let wsum: u64 = steps.iter().map(|s| if let Step::Wait(d) = s { *d as u64 } else { 0 }).sum();
     if cfg.h != 0 && wsum >= 2 * cfg.h as u64 { return None; }
+    // raw octets never make `parse_frame` decide: after every `pB` the octets written so far are fewer than 18, or carry a
+    // length field >= 19 that announces more than is there; with a second connection on the line at most 17 in all; <= 5 steps
+    let mut acc: Vec<u8> = vec![];
+    let reconnect = steps.iter().any(|s| *s == Step::Attach);
+    let mut n_raw = 0;
+    for st in &steps {
+        if let Step::Raw(b) = st {
+            acc.extend_from_slice(b); n_raw += 1;
+            let undecided = acc.len() < 18 || { let l = u16::from_be_bytes([acc[16], acc[17]]) as usize; l >= 19 && acc.len() < l };
+            if !undecided || n_raw > 5 || (reconnect && acc.len() > 17) { return None; }
+        }
+    }
     Some((cfg, init, steps))
 }
 
@@ -728,7 +916,7 @@ fn show_line(cfg: &Cfg, init: &Init, steps: &[Step]) -> String {
 pub fn run(cfg: Cfg, init: Init, steps: &[Step]) -> Vec<Out> {
     // attaching a stream waits for the socket, and the paused clock could jump meanwhile: lines that let time pass
     // get their streams before the session exists
-    let timed = steps.iter().any(|s| matches!(s, Step::Timer | Step::Wait(_)));
+    let timed = steps.iter().any(|s| matches!(s, Step::Timer | Step::Wait(_) | Step::Raw(_)));
     let n_spares = if timed { steps.iter().filter(|s| **s == Step::Attach).count() } else { 0 };
     let mut l = Live::new_with(cfg, init, false, n_spares);
     let mut v = Vec::new();
@@ -771,7 +959,7 @@ fn rfc_event(st: &Step, dop: bool, passive: bool) -> Option<u8> {
         Step::MKeep => 26,
         Step::MUpd(_) => 27,
         Step::MNotif(c, s) => if *c == 2 && *s == 1 { 24 } else { 25 },
-        Step::MRefresh | Step::Attach | Step::Room(_) | Step::Timer | Step::Wait(_) => return None,   // Timer: judged separately
+        Step::MRefresh | Step::Attach | Step::Room(_) | Step::Timer | Step::Wait(_) | Step::Raw(_) => return None,   // Timer: judged separately
         Step::AStart => if passive { 4 } else { 1 },
         Step::AConn => 17,
         Step::Wire(inner) => return rfc_event(inner, dop, passive),
@@ -940,7 +1128,7 @@ fn random_open(rng: &mut Rng, malformed_ap: bool) -> OpenP {
 
 fn step_kind(st: &Step, dop: bool) -> u8 {
     match st { Step::Ev(k, _) => *k, Step::MOpen(_) => if dop { 20 } else { 12 }, Step::MKeep => 17, Step::MUpd(_) | Step::Burst(..) => 18,
-        Step::MNotif(2, 1) => 15, Step::MNotif(..) => 16, Step::MRefresh | Step::Attach | Step::Room(_) | Step::Timer | Step::Wait(_) => 255, Step::AStart => 3, Step::AConn => 10,
+        Step::MNotif(2, 1) => 15, Step::MNotif(..) => 16, Step::MRefresh | Step::Attach | Step::Room(_) | Step::Timer | Step::Wait(_) | Step::Raw(_) => 255, Step::AStart => 3, Step::AConn => 10,
         Step::Wire(inner) => step_kind(inner, dop), Step::Close | Step::ReadErr(true) => 11, Step::ReadErr(false) => 13, Step::CmdDisconnect | Step::CmdDisconnectWith(_) => 1, Step::CmdKeepalive => 255 }
 }
 
@@ -1153,7 +1341,7 @@ impl Prop for C08 {
         let finals: Vec<Step> = vec![
             w(Step::MOpen(OK_OPEN())), w(Step::MOpen(BAD_OPEN())), w(Step::MOpen(OpenP { asn: 4_200_000_001, hold: 30, ap: vec![], field: None })),
             w(Step::MOpen(OpenP { asn: 65001, hold: 0, ap: vec![], field: None })), w(Step::MKeep), w(Step::MUpd(0)), w(Step::MUpd(2)),
-            w(Step::MNotif(6, 2)), w(Step::MNotif(2, 1)), w(Step::MNotif(4, 0)), Step::Close, Step::ReadErr(false), Step::ReadErr(true), Step::CmdDisconnect, Step::CmdKeepalive,
+            w(Step::MNotif(6, 2)), w(Step::MNotif(2, 1)), w(Step::MNotif(4, 0)), w(Step::MRefresh), Step::Close, Step::ReadErr(false), Step::ReadErr(true), Step::CmdDisconnect, Step::CmdKeepalive,
             // (tie coverage) the other arms of Session::disconnect
             Step::CmdDisconnectWith('r'), Step::CmdDisconnectWith('c'), Step::CmdDisconnectWith('d'), Step::CmdDisconnectWith('h'), Step::CmdDisconnectWith('o'),
             // more UPDATEs back to back than the application channel holds, the application reading late
@@ -1202,10 +1390,70 @@ impl Prop for C08 {
             }
             v.push(show_tick_line(&cfg, &steps));
         }
+        // (5) the whole receive path (`s` lines): a multi-message byte stream written in chunks, through Session::tick
+        {
+            let n_sess = if tier == Tier::Thorough { 4000 } else { 90 };
+            let inits = ["4:10001", "4:10001", "4:10001", "6:01101", "5:01101", "3:10011", "2:10011", "-", "4:10011"];
+            for i in 0..n_sess {
+                let cfg = Cfg { d: rng.chance(1, 4), n: rng.bool(), p: true, x: rng.bool(), a: rng.chance(1, 3), h: *rng.pick(&[90u16, 90, 180, 3, 0]) };
+                let init = inits[i % inits.len()];
+                let mut frames: Vec<Vec<u8>> = vec![];
+                if init.starts_with('4') || init.starts_with('3') || init.starts_with('2') {
+                    frames.push(open_bytes(&match rng.below(8) { 0 => BAD_OPEN(), 1 => OpenP { asn: 65001, hold: 30, ap: vec![(4, 0)], field: None },
+                        2 => OpenP { asn: 4_200_000_001, hold: 20, ap: vec![(4, 3), (6, 1)], field: None }, 3 => random_open(rng, true), _ => OK_OPEN() }));
+                }
+                for _ in 0..rng.usize(1, 5) {
+                    frames.push(match rng.below(14) {
+                        0..=4 => keepalive_bytes(),
+                        5..=8 => update_bytes(rng.below(5) as u8),
+                        9 => notif_bytes(*rng.pick(&[2u8, 4, 6]), rng.below(3) as u8),
+                        10 => open_bytes(&OK_OPEN()),
+                        11 => refresh_bytes(),
+                        12 => { let mut b = header(5, 4); b.push(0); b }
+                        _ => { let mut b = keepalive_bytes(); b[rng.usize(0, 18)] ^= 0x40; b }
+                    });
+                }
+                let stream: Vec<u8> = frames.concat();
+                // 1..4 chunks, one cut inside a frame after its 18th octet when there is a frame that long
+                let mut cuts: Vec<usize> = vec![];
+                let j = rng.usize(0, frames.len() - 1);
+                let o: usize = frames[..j].iter().map(|f| f.len()).sum();
+                if frames[j].len() > 19 { cuts.push(o + rng.usize(18, frames[j].len() - 1)); } else { cuts.push(o + rng.usize(1, 18)); }
+                for _ in 0..rng.below(3) { cuts.push(rng.usize(1, stream.len() - 1)); }
+                if i % 10 == 9 && stream.len() <= 70 { cuts = (1..stream.len()).collect(); }   // one octet per read
+                cuts.retain(|c| *c > 0 && *c < stream.len());
+                cuts.sort(); cuts.dedup();
+                let mut lens = vec![]; let mut prev = 0;
+                for c in &cuts { lens.push(c - prev); prev = *c; }
+                lens.push(stream.len() - prev);
+                v.push(format!("s {} {} {} {} {}", cfg.show(), init, hex(&stream), lens.iter().map(|x| x.to_string()).collect::<Vec<_>>().join(","), if rng.chance(1, 3) { "c" } else { "-" }));
+            }
+        }
+        // (6) a PARTIAL FRAME in the receive buffer when a timer of the session fires (`pB`): the timer branches of tick() do not
+        //     care what the framing buffer holds - a peer that stalls inside a PDU is expired like a silent one
+        {
+            let raws: Vec<Vec<u8>> = vec![vec![0xff; 5], vec![0xff], vec![0xff; 17], { let mut b = vec![0xffu8; 16]; b.extend_from_slice(&[0, 64, 2]); b.extend_from_slice(&[0u8; 11]); b },
+                { let mut b = vec![0xffu8; 16]; b.extend_from_slice(&[0x10, 0x00]); b }, vec![0x00, 0x01, 0x02]];
+            let n_raw = if tier == Tier::Thorough { 1200 } else { 72 };
+            for i in 0..n_raw {
+                let h = [2u16, 10, 20, 7, 1, 10, 90, 0][i % 8];
+                let cfg = Cfg { d: false, n: rng.bool(), p: true, x: rng.bool(), a: false, h };
+                let mut steps = vec![Step::AStart, Step::AConn, Step::MOpen(OpenP { asn: 65001, hold: *rng.pick(&[90u16, 30, 3]), ap: vec![], field: None })];
+                if i % 3 != 2 { steps.push(Step::MKeep); }
+                if i % 4 == 1 && h >= 7 { steps.push(Step::Wait(rng.range(1, 2) as u8)); steps.push(if rng.bool() { Step::MKeep } else { Step::MUpd(1) }); }
+                let raw = raws[i % raws.len()].clone();
+                if i % 5 == 4 && raw.len() >= 2 { let k = rng.usize(1, raw.len() - 1); steps.push(Step::Raw(raw[..k].to_vec())); if h >= 7 { steps.push(Step::Wait(1)); } steps.push(Step::Raw(raw[k..].to_vec())); }
+                else { steps.push(Step::Raw(raw)); }
+                if i % 6 == 5 && h >= 7 { steps.push(Step::Wait(rng.range(1, (h as u64).min(9)) as u8)); }
+                for _ in 0..rng.usize(1, 7) { steps.push(Step::Timer); }
+                v.push(show_line(&cfg, &FRESH, &steps));
+            }
+        }
         v
     }
 
     fn exec(&self, line: &str) -> String {
+        if let Some(l) = parse_sess_line(line) { return run_sess(&l); }
         if let Some((cfg, steps)) = parse_tick_line(line) { return show_outs(&run_tick(cfg, &steps)); }
         match parse_line(line) {
             None => "bad-op".into(),
@@ -1215,12 +1463,44 @@ impl Prop for C08 {
 
     /// The property, judged on the implementation's replies with the table above.
     fn oracle(&self, line: &str, reply: &str) -> Result<(), String> {
+        if let Some(l) = parse_sess_line(line) {
+            // the whole receive path: nothing the session does may depend on how the peer's writes were split; no
+            // panic, no hang; and every tick is judged like the same PDU on a `t` line (clauses 1-4)
+            let (recs, same) = reply.split_once(" ## same=").ok_or_else(|| format!("unreadable reply `{}`", reply))?;
+            if recs.contains("hang") { return Err("Session::tick() did not return on the peer's octets".into()); }
+            if recs.split(" ; ").any(|r| r == "panic") { return Err("the peer's octets panic the session".into()); }
+            if same != "1" { return Err("what the session does with the stream depends on how the peer's writes were split".into()); }
+            if recs == "-" { return Ok(()); }
+            return match steps_of_stream(&l) {
+                None => Ok(()),
+                Some(steps) => match judge(l.cfg, l.init, steps, recs, true) {
+                    // K8 / K5 are reported on the `t` / `h` lines known_findings.jsonl names
+                    Err(e) if e.contains("[K8]") || e.contains("[K5]") => Ok(()),
+                    r => r,
+                },
+            };
+        }
         let tick_line = line.starts_with("t ");
         let (cfg, init, steps) = if tick_line {
             match parse_tick_line(line) { Some((c, s)) => (c, FRESH, s), None => return Ok(()) }
         } else {
             match parse_line(line) { Some(x) => x, None => return Ok(()) }
         };
+        judge(cfg, init, steps, reply, tick_line)
+    }
+
+    fn nontrivial(&self, _line: &str, reply: &str) -> bool {
+        reply != "bad-op" && reply != "todo" && reply != "panic" && reply != "unparsable" && reply != "idle"
+    }
+
+    fn class(&self, line: &str, reply: &str) -> String {
+        class_of(line, reply)
+    }
+}
+
+/// The property, judged on the implementation's replies with the table above.
+fn judge(cfg: Cfg, init: Init, steps: Vec<Step>, reply: &str, tick_line: bool) -> Result<(), String> {
+    {
         let outs = parse_outs(reply).ok_or_else(|| format!("unreadable reply `{}`", reply))?;
         let single = steps.len() == 1;
         let n_steps = steps.len();
@@ -1303,7 +1583,8 @@ impl Prop for C08 {
                 }
                 Ok(())
             };
-            if matches!(step, Step::Timer) {
+            let raw_fired = matches!(step, Step::Raw(_)) && (r.st != st || !r.outs.is_empty() || r.conn != conn);
+            if matches!(step, Step::Timer) || raw_fired {
                 // `tick()` returned because a timer it polls fired: the step must be what RFC 4271 prescribes for the
                 // expiry event of ONE of the timers that were running (Event 10 hold, 11 keepalive, 12 delay-open).
                 // Which of several running timers is due first depends on their durations, which this property does
@@ -1313,7 +1594,15 @@ impl Prop for C08 {
                 if t_ka { cands.push(11); }
                 if dop { cands.push(12); }
                 if cands.is_empty() { return Err(format!("step {} `T`: Session::tick() returned although none of the timers it polls was running", i)); }
-                let res: Vec<Result<(), String>> = cands.iter().map(|e| check12(*e)).collect();
+                // an explanation must be what RFC 4271 8.2.2 says happens: KeepaliveTimer_Expires in OpenConfirm / Established
+                // "sends a KEEPALIVE message" (unless the outgoing queue is full: K14)
+                let res: Vec<Result<(), String>> = cands.iter().map(|e| {
+                    check12(*e)?;
+                    if *e == 11 && (st == 5 || st == 6) && room > 0 && !r.outs.iter().any(|o| o == "K") {
+                        return Err("KeepaliveTimer_Expires sends a KEEPALIVE, none was sent".to_string());
+                    }
+                    Ok(())
+                }).collect();
                 if !res.iter().any(|x| x.is_ok()) {
                     return Err(format!("step {} `T` (timer expiry through Session::tick, running: {:?}): {}", i, cands, res.into_iter().filter_map(|x| x.err()).collect::<Vec<_>>().join(" | ")));
                 }
@@ -1364,7 +1653,7 @@ impl Prop for C08 {
             // the HoldTimer does not expire early (property C20 lifted to the session): a Hold Timer Expired NOTIFICATION
             // raised by a timer of the session comes no earlier than the negotiated hold time after the peer was last heard
             if let Some(t) = r.at { now = t; }
-            if matches!(step, Step::Timer) && r.outs.iter().any(|o| o == "N4.0") {
+            if (matches!(step, Step::Timer) || raw_fired) && r.outs.iter().any(|o| o == "N4.0") {
                 if let (Some(a), Some(h)) = (hold_armed, neg_hold) {
                     if h > 0 && now < a + h {
                         return Err(format!("step {} `T`: HoldTimer_Expires (NOTIFICATION 4.0) at {} s, but the HoldTimer was (re)started at {} s with a negotiated hold time of {} s", i, now, a, h));
@@ -1383,14 +1672,20 @@ impl Prop for C08 {
         }
         Ok(())
     }
+}
 
-    fn nontrivial(&self, _line: &str, reply: &str) -> bool {
-        reply != "bad-op" && reply != "todo" && reply != "panic" && reply != "unparsable" && reply != "idle"
-    }
-
-    fn class(&self, line: &str, reply: &str) -> String {
+fn class_of(line: &str, reply: &str) -> String {
+    {
         let w: Vec<&str> = line.split(' ').collect();
         if w.len() < 3 { return "bad".into(); }
+        if w[0] == "s" {
+            // whole receive path: forced start state, how many ticks returned, where the session ended, how the run ended
+            let recs = reply.split(" ## ").next().unwrap_or("");
+            let v: Vec<&str> = if recs == "-" { vec![] } else { recs.split(" ; ").collect() };
+            let fin = v.last().map(|r| r.split(' ').take(2).collect::<Vec<_>>().join("-")).unwrap_or_else(|| "nothing".into());
+            let from = w[2].split(':').next().and_then(|f| f.parse::<usize>().ok()).map(|i| STATE_NAMES[i.min(6)]).unwrap_or("Idle");
+            return format!("sess:{}:{}ticks:{}{}", from, v.len().min(6), fin, if reply.contains("Established") { ":reaches-Established" } else { "" });
+        }
         let last = reply.rsplit(" ; ").next().unwrap_or("");
         if w[0] == "t" {
             let est = reply.contains("Established");
